@@ -85,6 +85,14 @@ fn run(ctx: &Ctx, out: &mut CaseOut, c14: bool) {
             log.push(format!("relate({:?}, {:?}, {:?}) chalk={} oracle={}", variance, a, b, res.is_ok(), ores));
             let unis0: Vec<usize> = o.uni.clone();
             let detail = |log: &Vec<String>| J::obj().set("variables", J::Arr(kinds.iter().zip(&unis0).map(|(k, u)| J::Str(format!("{:?}@U{}", k, u))).collect())).set("history", J::Arr(log.iter().map(|s| J::Str(s.clone())).collect()));
+            // A covariant relation that reaches two unknowns (at any depth) is deferred by chalk as a subtype obligation:
+            // "Ok" then means "Ok provided the obligations hold", the assignment is not yet a unifier, and neither the
+            // existence of a unifier nor the symmetric call can be compared with it.
+            let deferred = covariant && matches!(&res, Ok(rr) if rr.goals.iter().any(|g| matches!(g.goal.data(i), GoalData::SubtypeGoal(_))));
+            if deferred {
+                out.count("covariant:deferred-subtype-obligation(not compared)");
+                break;
+            }
             if c14 {
                 if res.is_ok() != ores {
                     out.violation(None, format!("unification {} but an assignment of the unknowns making both sides equal (respecting universes and kinds) {}", if res.is_ok() { "succeeded" } else { "failed" }, if ores { "exists" } else { "does not exist" }), detail(&log));
